@@ -194,11 +194,12 @@ class Rat:
 
 KW_POSITIONS = {
     "np.fft.rfft": ["a", "n"], "np.fft.irfft": ["a", "n"], "np.fft.fft": ["a", "n"], "np.fft.ifft": ["a", "n"],
-    "np.roll": ["a", "shift", "axis"], "np.sum": ["a", "axis"], "np.zeros": ["shape", "dtype"], "np.empty": ["shape", "dtype"],
+    "np.fromfile": ["file", "dtype", "count", "sep", "offset"], "np.roll": ["a", "shift", "axis"], "np.sum": ["a", "axis"], "np.zeros": ["shape", "dtype"], "np.empty": ["shape", "dtype"],
 }
 
 
-_INT_ATOM = re.compile(r"(\.tell(#\d+)?\(\)$)|(^len\()|(^struct\.calcsize\()|(\.st_size$)")
+_INT_ATOM = re.compile(r"(\.tell(#\d+)?\(\)$)|(^len\()|(^struct\.calcsize\()|(\.st_size$)|(^np\.where\(.*\)\[0\]\[0\]$)|(\.argmax\(\)$)|(\.argmin\(\)$)|"
+                       r"(^np\.(argmax|argmin|searchsorted|count_nonzero)\()|(\.size$)|(\.ndim$)|(\.shape\[-?\d+\]$)")
 
 
 def _integer_valued(p: "Poly") -> bool:
@@ -212,6 +213,45 @@ def _integer_valued(p: "Poly") -> bool:
             if not _INT_ATOM.search(sym):
                 return False
     return True
+
+
+_SEQ_METHODS = {"encode", "decode", "join", "pack", "tobytes", "format", "strip", "upper", "lower", "replace", "ljust", "rjust", "zfill", "tolist"}
+_SEQ_FUNCS = {"struct.pack", "str", "bytes", "bytearray", "repr", "encode_key", "encode_header", "sigproc.encode_header", "sigproc.encode_key", "list", "tuple",
+              "sorted"}
+
+
+def _is_sequence(e: ast.AST) -> bool:
+    """Syntactically a str / bytes / list / tuple value: `+` on it is concatenation, not addition."""
+    if isinstance(e, ast.Constant):
+        return isinstance(e.value, (str, bytes))
+    if isinstance(e, (ast.JoinedStr, ast.List, ast.Tuple, ast.ListComp)):
+        return True
+    if isinstance(e, ast.Call):
+        d = dotted(e.func)
+        if d in _SEQ_FUNCS:
+            return True
+        return isinstance(e.func, ast.Attribute) and e.func.attr in _SEQ_METHODS
+    if isinstance(e, ast.BinOp) and isinstance(e.op, ast.Add):
+        return _is_sequence(e.left) or _is_sequence(e.right)
+    if isinstance(e, ast.BinOp) and isinstance(e.op, ast.Mult):
+        return _is_sequence(e.left) or _is_sequence(e.right)
+    return False
+
+
+def _concat_parts(e: ast.AST) -> list[ast.AST]:
+    if isinstance(e, ast.BinOp) and isinstance(e.op, ast.Add):
+        return _concat_parts(e.left) + _concat_parts(e.right)
+    if isinstance(e, ast.Call) and isinstance(e.func, ast.Attribute) and e.func.attr == "join" and isinstance(e.func.value, ast.Constant) \
+            and e.func.value.value in ("", b"") and len(e.args) == 1 and isinstance(e.args[0], (ast.List, ast.Tuple)):
+        # b"".join([a, *xs, b]) is a + sum(xs) + b
+        out: list[ast.AST] = []
+        for x in e.args[0].elts:
+            if isinstance(x, ast.Starred):
+                out.append(ast.Call(func=ast.Name(id="sum", ctx=ast.Load()), args=[x.value], keywords=[]))
+            else:
+                out.extend(_concat_parts(x))
+        return out
+    return [e]
 
 
 class PolyEnv:
@@ -258,6 +298,9 @@ class PolyEnv:
                 return self.poly(e.operand)
             return self.atom(e)
         if isinstance(e, ast.BinOp):
+            if isinstance(e.op, ast.Add) and (_is_sequence(e.left) or _is_sequence(e.right)):
+                # bytes / str / list concatenation: order matters
+                return Poly.sym("concat(" + ", ".join(self._arg(p) for p in _concat_parts(e)) + ")")
             if isinstance(e.op, ast.Add):
                 return self.poly(e.left) + self.poly(e.right)
             if isinstance(e.op, ast.Sub):
@@ -282,6 +325,8 @@ class PolyEnv:
                     return self.poly(e.left).scale(2 ** int(r.const_value()))
                 return self.atom(e)
             return self.atom(e)
+        if isinstance(e, ast.Call) and len(_concat_parts(e)) > 1:
+            return Poly.sym("concat(" + ", ".join(self._arg(p) for p in _concat_parts(e)) + ")")
         if isinstance(e, ast.Call):
             d = dotted(e.func)
             if d in ("int", "np.int32", "np.int64", "float", "np.float32", "np.float64") and len(e.args) == 1 and not e.keywords:
@@ -313,7 +358,7 @@ class PolyEnv:
             fn = dotted(e.func) or self._operand(e.func)
             pos = list(e.args)
             kws = list(e.keywords)
-            sig = KW_POSITIONS.get(fn)
+            sig = KW_POSITIONS.get(re.sub(r"#\d+", "", fn))
             if sig and kws:
                 # keyword arguments of well-known signatures are normalised to positional form
                 byname = {k.arg: k.value for k in kws}
@@ -375,6 +420,12 @@ class PolyEnv:
             op = "and" if isinstance(e.op, ast.And) else "or"
             return f" {op} ".join(f"({self._arg(v)})" for v in e.values)
         if isinstance(e, ast.UnaryOp) and isinstance(e.op, ast.Not):
+            o = e.operand
+            neg = {ast.Eq: ast.NotEq, ast.NotEq: ast.Eq, ast.Is: ast.IsNot, ast.IsNot: ast.Is, ast.In: ast.NotIn, ast.NotIn: ast.In}
+            if isinstance(o, ast.Compare) and len(o.ops) == 1 and type(o.ops[0]) in neg:
+                return self.atom_name(ast.Compare(left=o.left, ops=[neg[type(o.ops[0])]()], comparators=o.comparators))
+            if isinstance(o, ast.UnaryOp) and isinstance(o.op, ast.Not):
+                return self._arg(o.operand)
             return f"not ({self._arg(e.operand)})"
         return " ".join(ast.unparse(e).split())
 
